@@ -382,8 +382,10 @@ class Lexer:
 
             chars = []
             while not self.eos() and self.read() != '"':
-                # An escaped " should not close the string
-                if self.read(2) == '\\"':
+                # A backslash escapes the character after it (C11 6.4.5):
+                # neither an escaped " nor the " after an escaped backslash
+                # is paired wrongly
+                if self.read() == "\\" and len(self.read(2)) == 2:
                     chars.append(self.read(2))
                     self.pos += 2
                 else:
